@@ -11,6 +11,13 @@ SRC="$(cd "$(dirname "$0")/.." && pwd)"
 V="$WT/.verif"
 mkdir -p "$V"
 rsync -a --delete --exclude target "$SRC/harness" "$SRC/harness-ft" "$V/" 2>/dev/null || rsync -a --delete --exclude target "$SRC/harness" "$V/"
+# restrict the copied workspace to the crates this check needs (other checks may be mid-edit)
+lc="$(echo "$id" | tr 'A-Z' 'a-z')"
+if [ -d "$V/harness/checks/$lc" ]; then
+  mem="\"vcore\", \"checks/$lc\""
+  for dep in $(grep -o 'path = "\.\./c[0-9]*"' "$V/harness/checks/$lc/Cargo.toml" | grep -o 'c[0-9]*'); do mem="$mem, \"checks/$dep\""; done
+  sed -i "s#^members = .*#members = [$mem]#" "$V/harness/Cargo.toml"
+fi
 cp "$SRC/known_findings.json" "$V/"
 cp "$SRC/check" "$V/check"
 mkdir -p "$V/shim"; cp "$SRC"/shim/*.c "$V/shim/" 2>/dev/null || true
